@@ -53,6 +53,39 @@ type Term struct {
 	C    uint64 // constant payload (bool 0/1, bit-vector bits, float bits)
 	Name string // variable / function name
 	ID   int64
+	key  [2]uint64
+	keyed bool
+}
+
+// Key is a 128-bit structural fingerprint (equal structure => equal key).
+func (t *Term) Key() [2]uint64 {
+	if t.keyed {
+		return t.key
+	}
+	h1, h2 := uint64(14695981039346656037), uint64(0x9e3779b97f4a7c15)
+	mix := func(v uint64) {
+		h1 = (h1 ^ v) * 1099511628211
+		h2 = (h2 + v*0xff51afd7ed558ccd) ^ (h2 >> 29) * 0xc4ceb9fe1a85ec53
+	}
+	for i := 0; i < len(t.Op); i++ {
+		mix(uint64(t.Op[i]))
+	}
+	mix(uint64(t.S.K)<<8 | uint64(t.S.W))
+	mix(t.C)
+	for i := 0; i < len(t.Name); i++ {
+		mix(uint64(t.Name[i]) + 131)
+	}
+	if t.Op == "var" {
+		mix(uint64(t.ID))
+	}
+	for _, a := range t.Args {
+		k := a.Key()
+		mix(k[0])
+		mix(k[1])
+	}
+	t.key = [2]uint64{h1, h2}
+	t.keyed = true
+	return t.key
 }
 
 var idCounter int64
